@@ -96,6 +96,8 @@ def content_lines(lines, kinds=CONTENT):
 def o_expected_content(kinds):
     def f(case, lines):
         m = case.meta or {}
+        if m.get("wellformed") and result_class(lines) != "ok":
+            return "well-formed document rejected (%s): %s" % (m["wellformed"], " ".join(lines[1:2]))
         if "expect_content" not in m:
             return None
         exp = m["expect_content"]
@@ -229,7 +231,7 @@ def o_identity(case, lines):
             return "sorted nodes are not grouped by document in document order: %s" % (seq[:8],)
     oi = sec(lines, "OI")
     if oi:
-        exp = sum(max(0, n - k - 1) for k in range(3))
+        exp = sum(max(0, n - k - 1) for k in range(3)) + 4 * n
         if int(oi[0][1]) != exp:
             return "only %s of %d nodes reached through descendants().nth(k) round-trip through get_node(n.id())" % (oi[0][1], exp)
     oh = sec(lines, "OH")
